@@ -112,6 +112,11 @@ def enumerated(tier, seed):
             if (base + extra) % 256 == 0:
                 yield dict(kind="cas", level="virtualfile", steps=[first[:2], [first[2]], [_big_file(n, 0, 2, "ZD")], [_big_file(5, 1, 0, "ZE")]])
                 break
+    # a tape has no limit on the number of files: 1,100 small ones, then 30 more, then one more (through the host-file
+    # route only: the container route lists after every single addition, which is quadratic here)
+    def small(i):
+        return dict(name="N%d" % i, ext="BIN", ftype=2, dtype=0, load=0x0E00 + i, exec=0x0E00, data=dict(n=1 + i % 3, k=i, mode=0, head="", tail=""))
+    yield dict(kind="cas", level="virtualfile", steps=[[small(i) for i in range(1100)], [small(i) for i in range(1100, 1130)], [small(1130)]])
     # tapes that keep growing past 256 KiB and 512 KiB (any total size): every re-open must still see every file
     yield dict(kind="cas", level="virtualfile", steps=[[_big_file(65535, 1, 0, "A"), _big_file(65535, 2, 0, "B")], [_big_file(65000, 3, 0, "C")],
                                                      [_big_file(64000, 4, 0, "D"), _big_file(63000, 5, 0, "E")], [_big_file(10, 6, 0, "F")],
